@@ -17,6 +17,7 @@ import numpy as np
 from .. import monitor
 from ..common import rng_for, close
 
+OPTIMIZED_SHARDS = 1  # shards run once more in an interpreter started with -O (vf/run.py)
 LEVEL = "exploration"
 TECHNIQUE = "history monitor: per-instance shadow accumulator (math.fsum, two-pass moments) updated on accumulate and compared on every apply; read-only inputs"
 RULE = (
